@@ -1015,8 +1015,77 @@ func (st *State) tryTypeName(env *Env, name string) types.Type {
 
 func (st *State) havocAll() { st.havocAllExcept(nil) }
 
+// localOnlyBox: a heap-allocated local (captured by closures of its own function) whose address never leaves the
+// function: it is only stored to, loaded from, bound into closures that are called on the spot, or shown to debug info.
+func localOnlyBox(a *ssa.Alloc) bool {
+	if a == nil || a.Referrers() == nil {
+		return false
+	}
+	for _, r := range *a.Referrers() {
+		switch x := r.(type) {
+		case *ssa.Store:
+			if x.Addr != a {
+				return false // its address is stored somewhere
+			}
+		case *ssa.UnOp, *ssa.DebugRef, *ssa.FieldAddr, *ssa.IndexAddr:
+			if fa, ok := x.(*ssa.FieldAddr); ok {
+				_ = fa
+				return false
+			}
+			if ia, ok := x.(*ssa.IndexAddr); ok {
+				_ = ia
+				return false
+			}
+		case *ssa.MakeClosure:
+			if x.Referrers() == nil {
+				return false
+			}
+			for _, cr := range *x.Referrers() {
+				switch y := cr.(type) {
+				case *ssa.Call:
+					if y.Call.Value != x {
+						return false
+					}
+				case *ssa.Defer:
+					if y.Call.Value != x {
+						return false
+					}
+				case *ssa.DebugRef:
+				default:
+					return false
+				}
+			}
+		default:
+			return false
+		}
+	}
+	return true
+}
+
 func (st *State) havocAllExcept(except map[string]bool) {
 	e := st.eng()
+	// locals of the frames on the stack that live in boxes only because closures of the same function capture them keep
+	// their values: no callee can reach them
+	type saved struct {
+		p *Pointer
+		v Value
+	}
+	var keep []saved
+	for fr := st.frame; fr != nil; fr = fr.parent {
+		for k, v := range fr.regs {
+			if a, ok := k.(*ssa.Alloc); ok && a.Heap && v.Ptr != nil && v.Ptr.Kind == RObj && len(v.Ptr.Path) == 0 && localOnlyBox(a) {
+				if _, isArr := types.Unalias(v.Ptr.RootT).Underlying().(*types.Array); isArr {
+					continue
+				}
+				keep = append(keep, saved{v.Ptr, st.load(v.Ptr)})
+			}
+		}
+	}
+	defer func() {
+		for _, k := range keep {
+			st.store(k.p, k.v)
+		}
+	}()
 	for name := range st.heap {
 		if name == "RO" || except[name] || strings.HasPrefix(name, "NC_") || strings.HasPrefix(name, "NCF_") {
 			// (call counters count the calls made by the unit's own body: a callee cannot change them)
